@@ -25,11 +25,11 @@ EXTENDS Integers, Sequences, FiniteSets, TLC, Json
 CONSTANTS Cases        \* set of cases [id, ps, dims, ops]
 
 VARIABLES cs,       \* the case
-          i,        \* number of calls performed
+          nc,       \* number of calls performed
           prev,     \* the list the last call was applied to
           res       \* its result (res.ps = the current list)
-vars == <<cs, i, prev, res>>
-done == i > 0
+vars == <<cs, nc, prev, res>>
+done == nc > 0
 
 U == 8
 Axes == 1..3
@@ -95,18 +95,18 @@ Result(c) == LET kept == SelectSeq(c.ps, LAMBDA p : Survives(c, p))
 \* the call about to be made / just made, as a single-call case on the list it is applied to
 CallOn(ps, k) == [id |-> cs.id, ps |-> ps, dims |-> cs.dims, op |-> cs.ops[k]]
 
-Init == cs \in Cases /\ i = 0 /\ prev = <<>> /\ res = [ps |-> cs.ps, status |-> <<>>, amb |-> FALSE]
-Apply == /\ i < Len(cs.ops) /\ ~res.amb
-         /\ i' = i + 1
+Init == cs \in Cases /\ nc = 0 /\ prev = <<>> /\ res = [ps |-> cs.ps, status |-> <<>>, amb |-> FALSE]
+Apply == /\ nc < Len(cs.ops) /\ ~res.amb
+         /\ nc' = nc + 1
          /\ prev' = res.ps
-         /\ res' = Result(CallOn(res.ps, i + 1))
+         /\ res' = Result(CallOn(res.ps, nc + 1))
          /\ UNCHANGED cs
 Spec == Init /\ [][Apply]_vars
 
 -----------------------------------------------------------------------------
 (* 3. The clauses, on the result of every case *)
 
-Case == CallOn(prev, i)
+Case == CallOn(prev, nc)
 Orig(id) == CHOOSE p \in { Case.ps[k] : k \in DOMAIN Case.ps } : p.id = id
 KeptIds == Ids(res.ps)
 
@@ -155,11 +155,11 @@ C09_WholeImpliesCenter ==
                 /\ InsideOOB([Case EXCEPT !.op.kind = "center"], Case.ps[k])
                 /\ (Case.op.box >= 2 => InsideOOB([Case EXCEPT !.op.box = Case.op.box - 2], Case.ps[k]))
 
-TypeOK == i \in 0..Len(cs.ops) /\ (~done => res.ps = cs.ps)
+TypeOK == nc \in 0..Len(cs.ops) /\ (~done => res.ps = cs.ps)
 
 -----------------------------------------------------------------------------
 \* emission: one record per call
 PJ(ps) == [k \in DOMAIN ps |-> <<ps[k].id, ps[k].t, ps[k].x[1], ps[k].x[2], ps[k].x[3], ps[k].s[1], ps[k].s[2], ps[k].s[3]>>]
 Emit == \/ ~done
-        \/ PrintT(<<"RES", ToJson([id |-> cs.id, step |-> i, ps |-> PJ(res.ps), status |-> res.status, amb |-> res.amb])>>)
+        \/ PrintT(<<"RES", ToJson([id |-> cs.id, step |-> nc, ps |-> PJ(res.ps), status |-> res.status, amb |-> res.amb])>>)
 =============================================================================
